@@ -38,7 +38,7 @@ reg('C12',
     deadline={'quick': 400, 'thorough': 2500},
     level=MC,
     technique='explicit-state model checking of the real register machine with per-transition latch/clear/SRQ rules, plus exhaustive enumeration of all 65536 error codes',
-    rule={'quick': _status_rule + 'Additionally ErrorPush of each of the 65536 codes on three ESR pre-states (class table from SCPI-99 21.8). quick bounds as C11.',
+    rule={'quick': _status_rule + 'Additionally ErrorPush of each of the 65536 codes on three ESR pre-states (class table from SCPI-99 21.8); the SRQ clauses are evaluated both against the status byte and against MSS as the register contents define it. quick bounds as C11.',
           'thorough': _status_rule + 'Additionally ErrorPush of each of the 65536 codes on three ESR pre-states. thorough bounds as C11.'},
     assumptions=['extra SRQ callbacks while MSS is already 1 are allowed (the statement does not forbid them)',
                  'on queue overflow the class bit of the pushed code is required; the bit of -350 itself is tolerated in addition',
@@ -58,7 +58,7 @@ reg('C10',
           'bb"c with info_len 2 (thorough: + 300-byte text)} x allocator answer {ok, NULL}, SCPI_ErrorPop (+ release of the returned text), '
           'SCPI_ErrorClear, SCPI_ErrorCount, SYST:ERR?, SYST:ERR:COUN?, *CLS, two SYST:ERR? in one message; key = wr/rd/count, all ring slots, '
           'allocator slots, registers, model queue; every transition is compared with the reference FIFO and the allocator ledger; '
-          'after the capacity-2 run a limit sweep: 5 codes x content lengths 249..259 x double quotes at the first place and at up to two of the last six places, pushed with automatic / explicit length (unterminated source), read back by pop and by SYST:ERR? against the same response model; '
+          'after the capacity-2 run a limit sweep: 5 codes x content lengths 249..259 and texts of 256 / 257 / 300 characters, every text with an apostrophe, x double quotes at the first place and at up to two of the last six places, pushed with automatic / explicit length (unterminated source), read back by pop and by SYST:ERR? against the same response model; '
           'non-trivial = transition that pushes or changes the number of queued errors'),
     assumptions=['strndup/free are replaced at link time (--wrap) by a slot arena; freed and unused arena bytes are ASan-poisoned',
                  'error codes and texts outside the alphabet behave alike (the queue never inspects them)'],
@@ -74,7 +74,7 @@ reg('C20',
     level=MC,
     technique='explicit-state model checking (BFS to the fix-point) of the real static-heap error queue against a "text or nothing" reference FIFO',
     rule=('explicit-state BFS, one run per (heap size H, queue capacity N), H = 2..8 x N = 1..3 (quick) / H = 2..12 x N = 1..4 (thorough): operations = '
-          'push with a text of every length 0..H (letter not used by any live entry), two pushes with explicit shorter info_len, one with explicit exact length from an unterminated buffer, three pushes of texts whose last / first character is a double quote, push without text, '
+          'push with a text of every length 0..H (letter not used by any live entry), two pushes with explicit shorter info_len, one with explicit exact length from an unterminated buffer, three pushes of texts whose last / first character is a double quote, one whose last character is an apostrophe, one with a positive error number, one with an explicit length beyond the end of the text, push without text, '
           'SYST:ERR?, SCPI_ErrorClear, *CLS; key = queue indices and entries (text pointers as heap offsets), heap bytes, heap wr/count, model; every '
           'SYST:ERR? response is compared with the reference FIFO (exact text or none); in every state with an empty queue a probe push of H-1 characters '
           'must be stored whole; non-trivial = transition that pushes or changes the number of queued errors'),
@@ -91,7 +91,7 @@ reg('C13',
     deadline={'quick': 400, 'thorough': 2000},
     level=MC, nontrivial_stat='nontrivial',
     technique='bounded-exhaustive enumeration of all input strings up to length L per recogniser, executed on the real lexer (ASan) and compared with independent reference recognisers',
-    rule={'quick': 'every string of length <= L (5 or 6, per recogniser) over an alphabet with one representative per character class the recogniser distinguishes, for each of the 14 scpiLex_* recognisers, scpiParser_parseProgramData, scpiParser_parseAllProgramData and scpiParser_detectProgramMessageUnit (L=5, 17 symbols), each in 3 buffer placements (exact-size heap copy; embedded at offset 3 between attractive bytes; cursor in mid-buffer; and the embedded placement again with every byte of the alphabet of the recogniser directly behind the input), every byte value 0..255 behind the # of a block or nondecimal literal, plus grammar-generated blocks/strings/headers up to 320 bytes; non-trivial = input on which the reference recognises a token / a well-formed unit',
+    rule={'quick': 'every string of length <= L (5 or 6, per recogniser) over an alphabet with one representative per character class the recogniser distinguishes, for each of the 14 scpiLex_* recognisers, scpiParser_parseProgramData, scpiParser_parseAllProgramData and scpiParser_detectProgramMessageUnit (L=5, 17 symbols), each in 3 buffer placements (exact-size heap copy; embedded at offset 3 between attractive bytes; cursor in mid-buffer; and the embedded placement again with every byte of the alphabet of the recogniser directly behind the input), every byte value 0..255 behind the # of a block or nondecimal literal, block headers that announce 127..9999999999 bytes without the data (limits of 8/16/31/32-bit counters), plus grammar-generated blocks/strings/headers up to 320 bytes; non-trivial = input on which the reference recognises a token / a well-formed unit',
           'thorough': 'as quick with L = 6 or 7 per recogniser and L=6 for the unit detector'},
     assumptions=['the reference implements the three documented leniencies (relaxed suffix, definite-length blocks only, flat expressions) and the incomplete-input conventions listed in ref_lex.h',
                  'characters are represented by class (one representative each); the recognisers only branch on class membership'],
@@ -137,7 +137,7 @@ reg('C02',
     deadline={'quick': 400, 'thorough': 3000},
     level=MC,
     technique='bounded-exhaustive enumeration of (command table, message) pairs executed through SCPI_Input (ASan, tail-poisoned input buffer), compared with a reference interpreter of the header-path and first-match rules',
-    rule={'quick': 'command tables: every ordered pair (110) and triple (990) of a pool of 11 overlapping patterns plus the whole pool in two orders; messages: every sequence of 1..3 units (1..2 for triples) over 31 header spellings (handlers of every second table entry fail with -200) (short/long, letter case, leading colon, optional keyword present/absent, numeric suffix, common, undefined with and without colons, undefined ones that differ from a defined keyword in the last character only) x 2 separator styles; the same for a second vocabulary of 9 patterns and 21 spellings (keywords of 13 and 15 characters, short forms holding a digit or underscore, a keyword that is a prefix of another, numeric suffix behind a 13-character keyword; ordered pairs and the whole pool in two orders); non-trivial = every message (each is compared unit by unit with the reference trace)',
+    rule={'quick': 'command tables: every ordered pair (110) and triple (990) of a pool of 11 overlapping patterns plus the whole pool in two orders; messages: every sequence of 1..3 units (1..2 for triples) over 31 header spellings (handlers of every second table entry fail with -200) (short/long, letter case, leading colon, optional keyword present/absent, numeric suffix, common, undefined with and without colons, undefined ones that differ from a defined keyword in the last character only) x 2 separator styles; the same for a second vocabulary of 9 patterns and 21 spellings (keywords of 13 and 15 characters, short forms holding a digit or underscore, a keyword that is a prefix of another, numeric suffix behind a 13-character keyword; ordered pairs and the whole pool in two orders); entry tags beyond 16 bits; a table of 300 entries C0..C299 probed at indices around 127/128, 255/256 and beyond the end, alone and as second unit; non-trivial = every message (each is compared unit by unit with the reference trace)',
           'thorough': 'as quick with 1..4 units (1..3 for triples and for the second vocabulary, which also gets its triples), additionally in the no-info build'},
     assumptions=['after a common (*) command the next unit uses its header as written, as the statement says',
                  'the -113 text only has to contain the header as written'],
@@ -152,7 +152,7 @@ reg('C05',
     deadline={'quick': 400, 'thorough': 2500},
     level=MC,
     technique='bounded-exhaustive enumeration of (handler signature, parameter list) pairs executed through SCPI_Input on a fresh context (ASan), compared with a model of the statement driven by the reference tokenizer',
-    rule={'quick': 'signatures: every sequence of 0..2 typed reads (10 readers x mandatory/optional) x handler result OK/ERR x stop/continue after a failed read (1684 signatures); lists: every sequence of 0..3 items over 14 well-formed data items of every type (numbers with/without known/unknown suffix, nondecimal, character data, strings and blocks and expressions containing commas) and 4 malformed fragments (empty item, open string, two numbers, @) x 4 white-space styles around the commas x 5 deliveries (NL, behind a failing unit, flush, SCPI_Parse, behind another message in one call + flush); for signatures of <= 1 read additionally a handler that reports an error of its own through SCPI_ErrorPush / SCPI_ErrorPushEx; lists of 1..1000 items; the same units with the error queue already full; non-trivial = well-formed unit (the model then predicts the complete trace of reads, values and errors)',
+    rule={'quick': 'signatures: every sequence of 0..2 typed reads (10 readers x mandatory/optional) x handler result OK/ERR x stop/continue after a failed read (1684 signatures); lists: every sequence of 0..3 items over 14 well-formed data items of every type (numbers with/without known/unknown suffix, nondecimal, character data, strings and blocks and expressions containing commas) and 4 malformed fragments (empty item, open string, two numbers, @) x 4 white-space styles around the commas x 5 deliveries (NL, behind a failing unit, flush, SCPI_Parse, behind another message in one call + flush); for signatures of <= 1 read additionally a handler that reports an error of its own through SCPI_ErrorPush / SCPI_ErrorPushEx; lists of 1..1000 items; the same units with the error queue already full; #H/#Q/#B items of two equal digits for every digit 0-9A-Fa-f and both cases of the radix letter, alone and as second list item (a digit outside the radix must make the unit malformed); every unit suffix of a golden copy of the unit table (mc/golden_units.h) delivered as known with its unit and multiplier, alone and in a list, and the same name plus one letter refused with -131; non-trivial = well-formed unit (the model then predicts the complete trace of reads, values and errors)',
           'thorough': 'signatures of 0..3 reads (lists of 0..2 items for 3 reads)'},
     assumptions=['a suffixed number handed to a non-numeric reader may raise -104 or -138 (the statement is ambiguous there)',
                  'integer value of a non-integer decimal literal is not compared (C04 owns conversions)',
@@ -168,7 +168,7 @@ reg('C06',
     deadline={'quick': 400, 'thorough': 3000},
     level=MC,
     technique='bounded-exhaustive enumeration of messages x predecessor histories executed through SCPI_Input (ASan), byte-exact comparison of write()/flush() with a framing model',
-    rule={'quick': 'every message of 1..5 units over 17 unit kinds (commands OK/ERR/with unread parameter; queries emitting 0/1/2/4 results of 16 rotating result types - integers in 4 bases, float, double, bool, text, mnemonic, blocks whole and streamed, ASCII and binary arrays incl. empty ones, error - then OK / ERR / ERR with own error / parameter left unread; undefined header; invalid unit; empty unit), each on a fresh context and after each of 13 predecessor messages (one leaves the error queue full); plus units with 254..1025 result items; every message of <= 3 units over 23 units handled by the handlers the library ships (*IDN? *TST? *OPC? *ESE? *ESR? *SRE? *STB? SYST:ERR? SYST:ERR:COUN? SYST:VERS? STAT:QUES? STAT:QUES:ENAB? STAT:OPER:COND? *RST *CLS *WAI *OPC *ESE STAT:QUES:ENAB STAT:PRES STUB STUB?) on a context with queued errors and event bits, compared with the same units sent one per message (differential: non-empty responses joined by ; plus one terminator); default (CR LF) and LF line-ending builds, the terminator taken from SCPI_LINE_ENDING; non-trivial = message in which at least one unit responds',
+    rule={'quick': 'every message of 1..5 units over 17 unit kinds (commands OK/ERR/with unread parameter; queries emitting 0/1/2/4 results of 16 rotating result types - integers in 4 bases, float, double, bool, text, mnemonic, blocks whole and streamed, ASCII and binary arrays incl. empty ones, error - then OK / ERR / ERR with own error / parameter left unread; undefined header; invalid unit; empty unit), each on a fresh context and after each of 13 predecessor messages (one leaves the error queue full); plus units with 254..1025 result items and blocks of 255..131073 bytes (one-shot and streamed) as FIRST item of a unit followed by a second item (total length and hash of the output); the error result carries a text with an apostrophe and double quotes; every message of <= 3 units over 23 units handled by the handlers the library ships (*IDN? *TST? *OPC? *ESE? *ESR? *SRE? *STB? SYST:ERR? SYST:ERR:COUN? SYST:VERS? STAT:QUES? STAT:QUES:ENAB? STAT:OPER:COND? *RST *CLS *WAI *OPC *ESE STAT:QUES:ENAB STAT:PRES STUB STUB?) on a context with queued errors and event bits, compared with the same units sent one per message (differential: non-empty responses joined by ; plus one terminator); default (CR LF) and LF line-ending builds, the terminator taken from SCPI_LINE_ENDING; non-trivial = message in which at least one unit responds',
           'thorough': 'messages of 1..6 units (6-unit messages after 4 histories)'},
     assumptions=['a unit responds iff it is a query whose handler emitted at least one result or completed without error (an empty successful query is an empty response unit)',
                  'non-query handlers emit nothing (a command that writes results is handler misuse)'],
@@ -183,7 +183,7 @@ reg('C09',
     deadline={'quick': 400, 'thorough': 2000},
     level=MC,
     technique='bounded-exhaustive differential enumeration: every ordered pair of messages executed on the real parser (ASan), trace of B after A compared with B on a fresh context',
-    rule={'quick': 'message set M = 49 single units (three address table entries without callback) + all 2401 ordered unit pairs (compound paths, common commands, every parameter kind incl. malformed lists and dangling comma, queries that succeed / fail midway / leave a block unfinished / write block data without header, invalid and incomplete units), each NL-terminated; ordered pairs (A, B): all |M|^2 = 4.7 M, plus A and an unterminated single-unit B in one call executed by a flush; compared: handler invocations with effective header and decoded parameters, output bytes, flushes, error callbacks, SCPI_Input result; histories with an input-buffer overrun; static-heap build: single-unit pairs and every history of <= 5 messages over {two undefined headers, SYST:ERR?, *CLS, two undefined headers in one message} on a 16-byte info heap, the queue read back and *CLS, then B whose queued error TEXTS are compared with B on a fresh context; non-trivial = pair whose A executed a handler or raised an error',
+    rule={'quick': 'message set M = 49 single units (three address table entries without callback) + all 2401 ordered unit pairs (compound paths, common commands, every parameter kind incl. malformed lists and dangling comma, queries that succeed / fail midway / leave a block unfinished / write block data without header, invalid and incomplete units), each NL-terminated; ordered pairs (A, B): all |M|^2 = 4.7 M, plus A and an unterminated single-unit B in one call executed by a flush; compared: handler invocations with effective header and decoded parameters, output bytes, flushes, error callbacks, SCPI_Input result; histories with an input-buffer overrun; a long message A of 255..70000 bytes of valid units in a 70016-byte buffer (whole and in two chunks) before each single-unit B; static-heap build: single-unit pairs and every history of <= 5 messages over {two undefined headers, SYST:ERR?, *CLS, two undefined headers in one message} on a 16-byte info heap, the queue read back and *CLS, then B whose queued error TEXTS are compared with B on a fresh context; non-trivial = pair whose A executed a handler or raised an error',
           'thorough': 'additionally every two-message history (A1, A2 single units) x every B in M (2.9 M), also in the no-info build'},
     assumptions=['B never queries status registers or the error queue (excepted by the statement); error queue capacity 64 so overflow cannot alias the comparison',
                  'A is always a terminated message (the harness asserts that nothing stays pending after A)'],
@@ -198,7 +198,7 @@ reg('C08',
     deadline={'quick': 400, 'thorough': 2500},
     level=MC,
     technique='exhaustive enumeration of input segmentations (schedules) of bounded streams on the real SCPI_Input (ASan, tail-poisoned buffer), differential against the byte-at-a-time schedule',
-    rule={'quick': 'streams: every concatenation of 1..3 messages of a 16-message alphabet (block with embedded NL and ; as first and as second parameter, block with NUL bytes, quoted string with embedded ; and with embedded NL, empty units, CR LF, bare CR, undefined header, missing parameter, dangling comma, trailing blanks, exponent number, common+compound), optionally followed by an unterminated unit (5 tails); schedules: EVERY partition for streams <= 14 bytes, else every partition with <= 2 cut points + every uniform chunk size + all-at-once, in a 256-byte and an exactly-fitting input buffer, against one byte per call; plus the zero-length-call clause on every prefix; static-heap build: the streams of <= 2 messages and every stream of <= 5 messages over {10-character undefined header, 8-character undefined header, SYST:ERR?, 4-character undefined header} with a 24-byte info heap (texts stored, released, wrapping); non-trivial = every schedule run (each is compared with the reference schedule)',
+    rule={'quick': 'streams: every concatenation of 1..3 messages of a 16-message alphabet (block with embedded NL and ; as first and as second parameter, block with NUL bytes, quoted string with embedded ; and with embedded NL, empty units, CR LF, bare CR, undefined header, missing parameter, dangling comma, trailing blanks, exponent number, common+compound), optionally followed by an unterminated unit (5 tails); schedules: EVERY partition for streams <= 14 bytes, else every partition with <= 2 cut points + every uniform chunk size + all-at-once, in a 256-byte and an exactly-fitting input buffer, against one byte per call; two streams of 506 / 762 bytes (the alphabet in rotation) in input buffers of 1024 and 66000 bytes: all at once, every single cut, every uniform chunk size; plus the zero-length-call clause on every prefix; static-heap build: the streams of <= 2 messages and every stream of <= 5 messages over {10-character undefined header, 8-character undefined header, SYST:ERR?, 4-character undefined header} with a 24-byte info heap (texts stored, released, wrapping); non-trivial = every schedule run (each is compared with the reference schedule)',
           'thorough': 'streams of 1..4 messages in both builds, heap streams of <= 6 messages'},
     assumptions=['return values of the individual SCPI_Input calls are not compared (they are per call, not per message)',
                  'known finding: a line terminator inside a quoted string is acted on when the chunk boundary falls inside the string (known_findings.txt)'],
@@ -300,7 +300,7 @@ reg('C04',
     deadline={'quick': 400, 'thorough': 2000},
     level=MC,
     technique='complete enumeration of a grammar-derived finite literal set executed through SCPI_Input on the real readers (ASan), compared bit for bit with results computed in exact rational arithmetic (Python Fractions)',
-    rule={'quick': 'decimal literals: sign {none,+,-} x integer and fraction parts (digit strings of length 0..2 over {0,1,5,9}, with and without point) x exponent {none} u ({none, blank, 2 blanks, tab} x {E,e} x {none, blank} x {none,+,-} x 12 exponent digit strings up to 323), ~0.8 M literals; long mantissas of every length 1..25 x 6 fills x point positions x 8 exponents; rounding traps (2^53+1, 2^24+1, half-subnormals, overflow boundaries); integer literals around every type limit; nondecimal: every #H/#Q/#B literal of <= 4 digits (#B <= 10) and every length up to 64 bits x 5 fills; each through SCPI_ParamDouble/Float/Number and (integer literals, nondecimal) the four integer readers, and a second time through SCPI_Parameter followed by the SCPI_ParamToXxx twin of each reader. Plus every unit-table row x every letter-case combination x {0,1,2} blanks x 8 literals (four with blanks or a tab at the exponent mark), golden multipliers of IEEE 488.2 table 7-2, and every special mnemonic (short/long) in every letter case; non-trivial = literal whose every decoded value matched the exact expectation',
+    rule={'quick': 'decimal literals: sign {none,+,-} x integer and fraction parts (digit strings of length 0..2 over {0,1,5,9}, with and without point) x exponent {none} u ({none, blank, 2 blanks, tab} x {E,e} x {none, blank} x {none,+,-} x 12 exponent digit strings up to 323), ~0.8 M literals; long mantissas of every length 1..25 x 6 fills x point positions x 8 exponents; rounding traps (2^53+1, 2^24+1, half-subnormals, overflow boundaries); integer literals around every type limit; nondecimal: every #H/#Q/#B literal of <= 4 digits (#B <= 10) and every length up to 64 bits x 5 fills; each through SCPI_ParamDouble/Float/Number and (integer literals, nondecimal) the four integer readers, and a second time through SCPI_Parameter followed by the SCPI_ParamToXxx twin of each reader. Plus every unit-table row x every letter-case combination x {0,1,2} blanks x 8 literals (four with blanks or a tab at the exponent mark), golden multipliers of IEEE 488.2 table 7-2, a golden copy of the whole unit table (name, unit, multiplier; mc/golden_units.h) and of the special mnemonics so that the library tables are not their own oracle, and every special mnemonic (short/long) in every letter case; non-trivial = literal whose every decoded value matched the exact expectation',
           'thorough': 'integer/fraction digit strings of length 0..3 (about 37 M decimal literals), full hex digit set'},
     assumptions=['expected binary64/binary32 values are the correctly rounded (ties-to-even, gradual underflow, overflow to infinity) values of the exact decimal literal with blanks removed',
                  'nondecimal literals wider than the reader type, and non-integer literals handed to integer readers, are outside the statement'],
@@ -315,7 +315,7 @@ reg('C01',
     deadline={'quick': 400, 'thorough': 3000},
     level=MC,
     technique='bounded-exhaustive enumeration of input byte strings x input-buffer sizes x segmentations x residues, executed on the real library under ASan + UBSan with exact-size heap blocks and a tail-poisoned input buffer',
-    rule={'quick': 'D1: every byte string of length <= 4 over 28 bytes (one per character class incl. NUL, 0x80, 0xFF) x every input-buffer size 2..len+2 x {whole, every single split point, one byte per call} + zero-length flush x {fresh context, 6 residues}, omnivore handlers applying every SCPI_ParamTo*/Expr*/Result*/ToStr API to every token; D2: "A <p> NL" for every p of length <= 4 over 20 bytes through the omnivore and each of 18 typed readers (two deliveries); D3: every D1 string NUL-terminated to SCPI_Parse; D4: every history of <= 4 messages over 9 steps (undefined headers of length 1..6, SYST:ERR?, *CLS) on one context, info heap sizes 5..12; D5: "A " + every string of length <= 5 over 11 token-forming bytes in exactly fitting buffers; D6: "A <token> NL" for every token length 1..400 of 10 token shapes (digits, digits with blank exponent, fraction with unit, mnemonic with digits and underscores, quoted string with doubled quotes, block with embedded NL, channel list, nondecimal, suffix program data, comma list) through the omnivore and 8 typed readers in exactly fitting buffers; D7: 12312 decimal literals that round up at the 6th / 15th digit when echoed (runs of 0..18 nines / 1000..0 / 1999..9, point at three places, six closing digit strings, six exponents, both signs) through the omnivore and the float/double/number/array readers; D8: every single-byte substitution and insertion (all 256 byte values) at every position of 16 well-formed messages that together use every token kind, whole into an exactly fitting buffer and split at the mutated byte into a 9-byte buffer; error ring of 2 entries; default and static-heap (9-byte heap) builds, and the built-in-dtostre build with D1/D2 shortened (it differs only in result formatting); non-trivial = (string, buffer size) case that reached a handler',
+    rule={'quick': 'D1: every byte string of length <= 4 over 28 bytes (one per character class incl. NUL, 0x80, 0xFF) x every input-buffer size 2..len+2 x {whole, every single split point, one byte per call} + zero-length flush x {fresh context, 6 residues}, omnivore handlers applying every SCPI_ParamTo*/Expr*/Result*/ToStr API to every token; D2: "A <p> NL" for every p of length <= 4 over 20 bytes through the omnivore and each of 18 typed readers (two deliveries); D3: every D1 string NUL-terminated to SCPI_Parse; D4: every history of <= 4 messages over 9 steps (undefined headers of length 1..6, SYST:ERR?, *CLS) on one context, info heap sizes 5..12; D5: "A " + every string of length <= 5 over 11 token-forming bytes in exactly fitting buffers; D6: "A <token> NL" for every token length 1..400 of 10 token shapes (digits, digits with blank exponent, fraction with unit, mnemonic with digits and underscores, quoted string with doubled quotes, block with embedded NL, channel list, nondecimal, suffix program data, comma list) through the omnivore and 8 typed readers in exactly fitting buffers; D7: 12312 decimal literals that round up at the 6th / 15th digit when echoed (runs of 0..18 nines / 1000..0 / 1999..9, point at three places, six closing digit strings, six exponents, both signs) through the omnivore and the float/double/number/array readers; D9: error queues of 127..300 entries filled to overflow by undefined headers and read back, messages of 255..70000 bytes (units of 6 bytes) streamed in 1000-byte chunks, flushed, and handed to SCPI_Parse as one line; D8: every single-byte substitution and insertion (all 256 byte values) at every position of 16 well-formed messages that together use every token kind, whole into an exactly fitting buffer and split at the mutated byte into a 9-byte buffer; error ring of 2 entries; default and static-heap (9-byte heap) builds, and the built-in-dtostre build with D1/D2 shortened (it differs only in result formatting); non-trivial = (string, buffer size) case that reached a handler',
           'thorough': 'D1 additionally every string of length 5 (three buffer sizes; whole, one split, one byte per call; fresh context), D2/D5 one byte longer, all four build configurations'},
     assumptions=['in D1-D5 bytes are represented by character class (28 representatives); all 256 values appear in D8 (one mutated byte per message) and in the C13 sweep',
                  'memory safety is judged by ASan/UBSan on this x86-64 build; uninitialised reads are not detected (no MSan run)'],
